@@ -491,6 +491,7 @@ func init() {
 			c.SigningRootProvenance("C08")
 			c.ServicePositions("C08")
 			c.BatchIdentifiers("C08")
+			c.RequestMessageScoped("C08")
 			c.ScatterIndexDiscipline("C08")
 			c.LosslessSplit("C08")
 			c.ScatterPartition("C08")
